@@ -588,3 +588,8 @@ _more("C38", "Added (C38-union): evdns_getaddrinfo_gotresolve as a decision tabl
 _more("C40", "Added: the strict-reference family now holds IPv6 texts with a hexadecimal group glued to the embedded dotted quad.")
 _more("C39", "Added (C39-readfile): evutil_read_file_ over open result x file size x malloc result x scripts of read() answers (full, short, zero, error): every read stays inside the block of "
              "size+1 behind the data read so far, the terminator follows the data, the descriptor is closed once, the block is freed or handed out, never both.")
+_more("C27", "Added (C27-write-cb): evhttp_write_buffer replaces the connection's write-completion callback and its argument by exactly what it is given, NULL included (a callback left over from the "
+             "previous reply would complete the request being streamed now).")
+_more("C30", "Added (C30-glob): prefix_suffix_match evaluated on 14 patterns x 14 host names x case folding equals shell matching with '*' (found: a '*' at the end of a pattern matched nothing; fixed).",
+      "evaluation of the extracted recursive matcher on abstract strings against a reference matcher (K6)")
+_more("C44", "Added (C44-peer): the in/out address length is set to the size of the address buffer again between two accepts, and the callback gets that buffer and the length accept wrote.")
